@@ -12,6 +12,7 @@ package kv
 import (
 	"bytes"
 	"context"
+	"sync"
 
 	"github.com/synnaxlabs/aspen/internal/node"
 	"github.com/synnaxlabs/freighter"
@@ -107,12 +108,17 @@ func runRecovery(ctx context.Context, cfg Config) error {
 	if err != nil {
 		return err
 	}
+	// Peers are streamed from concurrently, but what they sent is applied one peer at a
+	// time, and only where it supersedes what is stored by then: several peers hold
+	// different versions of one key, and the last transaction to commit must not put an
+	// older version over a newer one.
+	var applyMu sync.Mutex
 	for _, n := range nodes {
 		if n.Key == cfg.Cluster.HostKey() {
 			continue
 		}
 		sCtx.Go(func(ctx context.Context) error {
-			return runSingleNodeRecovery(ctx, cfg, n, hw)
+			return runSingleNodeRecovery(ctx, cfg, n, hw, &applyMu)
 		}, signal.WithKeyf("node_%v", n.Key))
 	}
 	err = sCtx.Wait()
@@ -149,6 +155,7 @@ func runSingleNodeRecovery(
 	cfg Config,
 	node node.Node,
 	hw version.Counter,
+	applyMu *sync.Mutex,
 ) error {
 	cfg.L.Info("starting recovery for node", zap.Stringer("nodeKey", node.Key), zap.Int64("highWater", int64(hw)))
 	stream, err := cfg.RecoveryTransportClient.Stream(ctx, node.Address)
@@ -158,24 +165,35 @@ func runSingleNodeRecovery(
 	if err = stream.Send(RecoveryRequest{HighWater: hw}); err != nil {
 		return err
 	}
+	var ops []Operation
+	for {
+		resp, err := stream.Receive()
+		if err != nil {
+			if errors.Is(err, freighter.EOF) {
+				break
+			}
+			return err
+		}
+		ops = append(ops, resp.Operations...)
+	}
+	applyMu.Lock()
+	defer applyMu.Unlock()
 	return kv.WithTx(ctx, cfg.Engine, func(tx kv.Tx) error {
 		count := 0
-		for {
-			resp, err := stream.Receive()
+		for _, op := range ops {
+			ok, err := supersedes(ctx, tx, op)
 			if err != nil {
-				if errors.Is(err, freighter.EOF) {
-					break
-				}
 				return err
 			}
-			count += len(resp.Operations)
-			for _, op := range resp.Operations {
-				if err = op.apply(ctx, tx); err != nil {
-					return err
-				}
-				if err = op.Digest().apply(ctx, tx); err != nil {
-					return err
-				}
+			if !ok {
+				continue
+			}
+			count++
+			if err = op.apply(ctx, tx); err != nil {
+				return err
+			}
+			if err = op.Digest().apply(ctx, tx); err != nil {
+				return err
 			}
 		}
 		cfg.L.Info("successfully recovered lost key-value operations", zap.Stringer("node", node.Key), zap.Int("operations", count))
